@@ -17,7 +17,7 @@ import time
 
 from ..leanclient import hx
 
-TRANSLATORS = []
+TRANSLATORS = ["transcript"]
 
 MANIFEST = {
     "text": "Proof (Lean 4): endpoints running the mirrored flow scripts against arbitrary attacker-chosen deliveries; if both "
@@ -28,10 +28,19 @@ MANIFEST = {
             "(no_downgrade_tls12plus, sentinel_no_false_alarm); FALLBACK_SCSV (fallback_scsv_enforced, and "
             "fallback_scsv_enforced_before_resumption: the test precedes the resumption decision); HRR message_hash binds the "
             "first ClientHello (hrr_transcript_binds_first_hello); binders cover the truncated hello (binder_covers_truncated_hello, "
-            "truncate_append_binders). Tie: model flow scripts, transcript byte streams, sentinel / SCSV / version-choice / HRR "
+            "truncate_append_binders); TLS 1.3 key schedule over abstract HKDF and the <= 1.2 master secret / verify_data "
+            "(keys13_depend_only_on_transcript_prefix, equal_transcripts_equal_secrets13, keySchedule13_finished_is_model_finished, "
+            "finished_inputs_differ_or_collision, verifyData12_is_model_finished). Regenerated from the source on every run "
+            "(translate/gen_transcript.py -> TlsModel/Gen/Transcript.lean) and tied by kernel-decided theorems: sentinel writes / "
+            "checks, SCSV test, position and client append, record-layer hashing sites and HRR restarts, the transcript prefix "
+            "every TLS 1.3 Derive-Secret / Finished / CertificateVerify sees for all 4 x 128 flows (generated_schedule13_conforms), "
+            "<= 1.2 labels and EMS snapshot (generated_*). Tie: model flow scripts, transcript byte streams, sentinel / SCSV / version-choice / HRR "
             "comparison functions compared with the live endpoints; an active MITM in the in-memory lab flips every byte of the hello "
             "flights (3 masks), drops / duplicates / swaps records, rewrites hellos with tlslite's own message classes, attempts "
-            "version rollback, for SSLv3..TLS1.3 x RSA/DHE/ECDHE (+SRP, anon, client auth, HRR, ID/ticket/PSK resumption).",
+            "version rollback, for SSLv3..TLS1.3 x RSA/DHE/ECDHE (+SRP, anon, client auth, HRR, ID/ticket/PSK resumption); every "
+            "derive_secret / secureHMAC / HKDF_expand_label / calc_key call of both live endpoints is intercepted and its "
+            "label, order and transcript compared with the model's points, and every secret, Finished and EMS master secret "
+            "recomputed independently (RFC 8446 7.1, RFC 5246, RFC 7627, SSLv3) from PSK, (EC)DHE and the transcript prefixes.",
     "note": "The abbreviated (resumption) ServerHello carries no downgrade sentinel in the code (serverRandomTailResumed); "
             "rollback of a resuming pair is stopped by the Finished MAC under the cached master secret (never completed in the "
             "lab). Collision resistance and PRF/MAC unforgeability are the named bad events, not assumptions. Below TLS 1.2 downgrade "
@@ -658,6 +667,79 @@ def install_hook(L, hook, counter):
     lab.hook_messages(conn, fn)
 
 
+class KeyTap(object):
+    """records every key-schedule call the handshake code of tlsconnection.py makes on either live
+    endpoint: derive_secret / secureHMAC / HKDF_expand_label (TLS 1.3) and calc_key (<= 1.2), with the
+    transcript (`digest('intrinsic')`) they were given"""
+    NAMES = ("derive_secret", "secureHMAC", "HKDF_expand_label", "calc_key")
+
+    def __init__(self):
+        self.cur = [None]
+        self.calls = []
+        self.orig = {}
+
+    def tagged(self, gen, name):
+        cur = self.cur
+
+        def g():
+            while True:
+                cur[0] = name
+                try:
+                    r = next(gen)
+                except StopIteration as s:
+                    return s.value
+                finally:
+                    cur[0] = None
+                yield r
+        return g()
+
+    @staticmethod
+    def _buf(hh):
+        return None if hh is None else bytes(hh.digest("intrinsic")).hex()
+
+    def install(self):
+        import tlslite.tlsconnection as tc
+        calls, cur = self.calls, self.cur
+        for n in self.NAMES:
+            self.orig[n] = getattr(tc, n)
+        o = self.orig
+
+        def derive_secret(secret, label, handshake_hashes, algorithm):
+            out = o["derive_secret"](secret, label, handshake_hashes, algorithm)
+            calls.append({"side": cur[0], "fn": "derive", "label": bytes(label).decode("latin1"), "secret": bytes(secret).hex(),
+                          "tr": KeyTap._buf(handshake_hashes), "alg": algorithm, "out": bytes(out).hex()})
+            return out
+
+        def secureHMAC(k, b, algorithm):
+            out = o["secureHMAC"](k, b, algorithm)
+            calls.append({"side": cur[0], "fn": "hmac", "key": bytes(k).hex(), "data": bytes(b).hex(), "alg": algorithm,
+                          "out": bytes(out).hex()})
+            return out
+
+        def HKDF_expand_label(secret, label, hashValue, length, algorithm):
+            out = o["HKDF_expand_label"](secret, label, hashValue, length, algorithm)
+            calls.append({"side": cur[0], "fn": "expand", "label": bytes(label).decode("latin1"), "secret": bytes(secret).hex(),
+                          "ctx": bytes(hashValue).hex(), "alg": algorithm, "out": bytes(out).hex()})
+            return out
+
+        def calc_key(version, secret, cipher_suite, label, handshake_hashes=None, client_random=None,
+                     server_random=None, output_length=None):
+            out = o["calc_key"](version, secret, cipher_suite, label, handshake_hashes=handshake_hashes,
+                                client_random=client_random, server_random=server_random, output_length=output_length)
+            calls.append({"side": cur[0], "fn": "calc_key", "label": bytes(label).decode("latin1"), "secret": bytes(secret).hex(),
+                          "tr": KeyTap._buf(handshake_hashes), "suite": cipher_suite, "version": list(version),
+                          "randoms": (bytes(client_random).hex(), bytes(server_random).hex())
+                          if client_random is not None and server_random is not None else None,
+                          "out": bytes(out).hex()})
+            return out
+        tc.derive_secret, tc.secureHMAC, tc.HKDF_expand_label, tc.calc_key = derive_secret, secureHMAC, HKDF_expand_label, calc_key
+
+    def remove(self):
+        import tlslite.tlsconnection as tc
+        for n, f in self.orig.items():
+            setattr(tc, n, f)
+
+
 def run_case(case):
     """one handshake of scenario case['scn'] under tamper case['tamper'] (dict or list of dicts).
     Returns a plain dict (picklable)."""
@@ -680,12 +762,21 @@ def run_case(case):
     logs = {"client": [], "server": []}
     if case.get("trace"):
         trace_both(L, logs)
+    tap = KeyTap() if case.get("tap") else None
     hooked = {"n": 0}
     if case.get("hook"):
         install_hook(L, case["hook"], hooked)
     t0 = time.time()
     start_endpoints(L, sc, cs, ss, prime)
-    L.run()
+    if tap is not None:
+        L.client.gen = tap.tagged(L.client.gen, "client")
+        L.server.gen = tap.tagged(L.server.gen, "server")
+        tap.install()
+    try:
+        L.run()
+    finally:
+        if tap is not None:
+            tap.remove()
     res = {
         "scn": case["scn"], "tamper": tam, "applied": att.applied, "note": att.note,
         "c_state": L.client.state, "s_state": L.server.state,
@@ -715,6 +806,8 @@ def run_case(case):
                                                            "_read_buffer", b"")) for d in ("c2s", "s2c")}
     if case.get("trace"):
         res["logs"] = {k: [(a, b, c.hex()) for a, b, c in v] for k, v in logs.items()}
+    if tap is not None:
+        res["tap"] = tap.calls
     return res
 
 
@@ -1276,6 +1369,14 @@ class Judge(object):
                         bad.append(("c04:sentinel-not-enforced",
                                     "client with maxVersion %s received a ServerHello for %s carrying a downgrade sentinel "
                                     "and did not abort with illegal_parameter (%s)" % (cmax, vd, res["c_exc"])))
+            if (case.get("cs_attr") or {}).get("sendFallbackSCSV") and res["orig"]["c2s"]:
+                ch_sent = self._client_hello(res["orig"]["c2s"])
+                if ch_sent is not None and 0x5600 not in ch_sent.cipher_suites:
+                    bad.append(("c04:fallback-scsv-not-sent",
+                                "client with sendFallbackSCSV (maxVersion lowered to %s)%s sent a ClientHello without "
+                                "TLS_FALLBACK_SCSV%s" % (cmax, " offering a session" if ch_sent.session_id else "",
+                                                         "; both endpoints completed at %s" % (res["c_view"]["version"],)
+                                                         if res["both"] else "")))
             if ("fallback" in kind or "scsv" in kind) and res["fwd"]["c2s"]:
                 ch = self._client_hello(res["fwd"]["c2s"])
                 if ch is not None and 0x5600 in ch.cipher_suites:
@@ -1684,6 +1785,201 @@ def binder_check(J, sc, res, lc):
 
 
 # ------------------------------------------------------------------------------------------------
+# key schedule: live calls vs the model's transcript points and an independent RFC computation
+
+
+def split_msgs(buf):
+    out = []
+    i = 0
+    while i + 4 <= len(buf):
+        n = int.from_bytes(buf[i + 1:i + 4], "big")
+        out.append(buf[i:i + 4 + n])
+        i += 4 + n
+    return out
+
+
+def _p_hash(hname, secret, seed, n):
+    import hmac
+    h = getattr(hashlib, hname)
+    out = b""
+    a = seed
+    while len(out) < n:
+        a = hmac.new(secret, a, h).digest()
+        out += hmac.new(secret, a + seed, h).digest()
+    return out[:n]
+
+
+def spec_prf(version, suite, secret, label, seed, n):
+    """RFC 2246 / 5246 PRF"""
+    if tuple(version) >= (3, 3):
+        return _p_hash(prf_of_suite(suite), secret, label + seed, n)
+    half = (len(secret) + 1) // 2
+    a = _p_hash("md5", secret[:half], label + seed, n)
+    b = _p_hash("sha1", secret[len(secret) - half:], label + seed, n)
+    return bytes(x ^ y for x, y in zip(a, b))
+
+
+def spec_hs_digest(version, suite, data):
+    if tuple(version) >= (3, 3):
+        return getattr(hashlib, prf_of_suite(suite))(data).digest()
+    return hashlib.md5(data).digest() + hashlib.sha1(data).digest()
+
+
+def spec_ssl3_finished(master, sender, data):
+    inner_m = hashlib.md5(data + sender + master + b"\x36" * 48).digest()
+    inner_s = hashlib.sha1(data + sender + master + b"\x36" * 40).digest()
+    return hashlib.md5(master + b"\x5c" * 48 + inner_m).digest() + hashlib.sha1(master + b"\x5c" * 40 + inner_s).digest()
+
+
+LABEL_POINT13 = {"s hs traffic": 0, "c hs traffic": 0, "c ap traffic": 3, "s ap traffic": 3, "exp master": 5, "res master": 6}
+ORDER13 = ["derived", "s hs traffic", "c hs traffic", "derived", "c ap traffic", "s ap traffic", "exp master", "res master"]
+
+
+def keys_check(J, sc, res, lc):
+    """returns violations; registers comparisons"""
+    import hmac
+    ctx = J.ctx
+    bad = []
+    name = sc["name"]
+    T = split_msgs(bytes.fromhex(res["c_tr"]))
+    calls = res.get("tap") or []
+    ident = {"scn": name}
+
+    def pre(n):
+        return b"".join(T[:n])
+
+    if sc["flow"] in IS13:
+        pts = lc.ask("points13 %s %s" % (sc["flow"], sc["optbits"])).split()
+        if pts[0] == "none":
+            ctx.disagree("points13", ident, "none", "handshake completed")
+            return bad
+        off = int(pts[7])
+        P = [int(pts[0]), None if pts[1] == "-" else int(pts[1]), int(pts[2]), int(pts[3]),
+             None if pts[4] == "-" else int(pts[4]), int(pts[5]), int(pts[6])]
+        hname = prf_of_suite(res["c_view"]["cipherSuite"])
+        h = getattr(hashlib, hname)
+        n = h().digest_size
+        for side in ("client", "server"):
+            mine = [c for c in calls if c["side"] == side]
+            ders = [c for c in mine if c["fn"] == "derive"]
+            # the server's ticket encryption key (`_derive_key_iv`: Derive-Secret(., "derived", "") then
+            # "SessionTicket secret") is not part of the connection's key schedule
+            keep = []
+            for c in ders:
+                if c["label"] == "SessionTicket secret":
+                    if keep and keep[-1]["label"] == "derived":
+                        keep.pop()
+                    continue
+                keep.append(c)
+            ders = keep
+            ctx.compared()
+            if [c["label"] for c in ders] != ORDER13:
+                ctx.disagree("derive-secret-order", dict(ident, side=side), ORDER13, [c["label"] for c in ders])
+                continue
+            for c in ders:
+                ctx.compared()
+                if c["label"] == "derived":
+                    if c["tr"] is not None:
+                        ctx.disagree("derive-secret-transcript", dict(ident, side=side, label=c["label"]), None, len(c["tr"]) // 2)
+                    continue
+                want = pre(off + P[LABEL_POINT13[c["label"]]])
+                if c["tr"] is None or bytes.fromhex(c["tr"]) != want:
+                    ctx.disagree("derive-secret-transcript", dict(ident, side=side, label=c["label"]),
+                                 "first %d messages (%d bytes)" % (off + P[LABEL_POINT13[c["label"]]], len(want)),
+                                 None if c["tr"] is None else "%d bytes" % (len(c["tr"]) // 2))
+            # independent RFC 8446 7.1 computation from (PSK, (EC)DHE, transcript prefixes)
+            # the two Extract calls of this connection: the one producing the secret the handshake traffic
+            # secrets are derived from (IKM = (EC)DHE), and the one before it (IKM = PSK)
+            ext = [c for c in mine if c["fn"] == "hmac"]
+            hs_call = [c for c in ext if c["out"] == ders[1]["secret"]]
+            d1 = [c for c in ders if c["label"] == "derived" and hs_call and c["out"] == hs_call[0]["key"]]
+            early_call = [c for c in ext if d1 and c["out"] == d1[0]["secret"]]
+            ctx.compared()
+            if not (hs_call and d1 and early_call):
+                ctx.disagree("extract-chain", dict(ident, side=side), "Extract(0,PSK) -> derived -> Extract(.,ECDHE) -> hs traffic",
+                             [c["fn"] + ":" + c.get("label", "") for c in mine][:12])
+                continue
+            psk, ecdhe = bytes.fromhex(early_call[0]["data"]), bytes.fromhex(hs_call[0]["data"])
+            empty = h(b"").digest()
+            early = hmac.new(bytes(n), psk, h).digest()
+            hs = hmac.new(_hkdf_label(early, b"derived", empty, n, hname), ecdhe, h).digest()
+            master = hmac.new(_hkdf_label(hs, b"derived", empty, n, hname), bytes(n), h).digest()
+            spec = {
+                "s hs traffic": _hkdf_label(hs, b"s hs traffic", h(pre(off + P[0])).digest(), n, hname),
+                "c hs traffic": _hkdf_label(hs, b"c hs traffic", h(pre(off + P[0])).digest(), n, hname),
+                "c ap traffic": _hkdf_label(master, b"c ap traffic", h(pre(off + P[3])).digest(), n, hname),
+                "s ap traffic": _hkdf_label(master, b"s ap traffic", h(pre(off + P[3])).digest(), n, hname),
+                "exp master": _hkdf_label(master, b"exp master", h(pre(off + P[5])).digest(), n, hname),
+                "res master": _hkdf_label(master, b"res master", h(pre(off + P[6])).digest(), n, hname),
+            }
+            got = {c["label"]: bytes.fromhex(c["out"]) for c in ders if c["label"] != "derived"}
+            view = res["c_view" if side == "client" else "s_view"]
+            got_view = {"c ap traffic": view.get("cl_app_secret"), "s ap traffic": view.get("sr_app_secret"),
+                        "exp master": view.get("exporterMasterSecret"), "res master": view.get("resumptionMasterSecret")}
+            ctx.case(key=("keys13", name, side), sample=None)
+            for lab, val in spec.items():
+                if got.get(lab) != val or (lab in got_view and got_view[lab] != val.hex()):
+                    bad.append(("c04:key-schedule-not-bound-to-transcript",
+                                "%s of %s: secret '%s' is not Derive-Secret(., label, Hash(first %d handshake messages)) of RFC 8446 7.1"
+                                % (side, name, lab, off + P[LABEL_POINT13[lab]])))
+            sfin = hmac.new(_hkdf_label(spec["s hs traffic"], b"finished", b"", n, hname), h(pre(off + P[2])).digest(), h).digest()
+            cfin = hmac.new(_hkdf_label(spec["c hs traffic"], b"finished", b"", n, hname), h(pre(off + P[5])).digest(), h).digest()
+            if T[off + P[2]][4:] != sfin or T[off + P[5]][4:] != cfin:
+                bad.append(("c04:finished-not-over-transcript",
+                            "%s: a Finished on the wire is not HMAC(finished_key, Hash(all handshake messages before it))" % name))
+        return bad
+    # ---- TLS <= 1.2
+    pts = lc.ask("points12 %s %s" % (sc["flow"], sc["optbits"])).split()
+    if pts[0] == "none":
+        return bad
+    ems_p = None if pts[0] == "-" else int(pts[0])
+    cf, sf = int(pts[1]), int(pts[2])
+    ver = tuple(res["c_view"]["version"])
+    suite = res["c_view"]["cipherSuite"]
+    master = bytes.fromhex(res["c_view"]["masterSecret"])
+    for side in ("client", "server"):
+        mine = [c for c in calls if c["side"] == side and c["fn"] == "calc_key"]
+        labs = [c["label"] for c in mine]
+        want_labs = []
+        if ems_p is not None:
+            want_labs.append("extended master secret" if res["c_view"]["session_ems"] else "master secret")
+        want_labs += ["client finished", "server finished"] if cf < sf else ["server finished", "client finished"]
+        ctx.compared()
+        if labs != want_labs:
+            ctx.disagree("calc-key-order", dict(ident, side=side), want_labs, labs)
+            continue
+        for c in mine:
+            ctx.compared()
+            pt = {"extended master secret": ems_p, "client finished": cf, "server finished": sf}.get(c["label"])
+            if pt is None:
+                if c["tr"] is not None:
+                    ctx.disagree("calc-key-transcript", dict(ident, side=side, label=c["label"]), None, len(c["tr"]) // 2)
+                continue
+            if c["tr"] is None or bytes.fromhex(c["tr"]) != pre(pt):
+                ctx.disagree("calc-key-transcript", dict(ident, side=side, label=c["label"]), "first %d messages" % pt,
+                             None if c["tr"] is None else "%d bytes" % (len(c["tr"]) // 2))
+        # independent values
+        ctx.case(key=("keys12", name, side), sample=None)
+        for lab, pt, sender in (("client finished", cf, b"CLNT"), ("server finished", sf, b"SRVR")):
+            if ver == (3, 0):
+                want = spec_ssl3_finished(master, sender, pre(pt))
+            else:
+                want = spec_prf(ver, suite, master, lab.encode(), spec_hs_digest(ver, suite, pre(pt)), 12)
+            if T[pt][4:] != want:
+                bad.append(("c04:finished-not-over-transcript",
+                            "%s: the %s on the wire is not PRF(master_secret, label, Hash(all handshake messages before it))"
+                            % (name, lab)))
+        if ems_p is not None and res["c_view"]["session_ems"] and ver > (3, 0):
+            pms = bytes.fromhex(mine[0]["secret"])
+            want = spec_prf(ver, suite, pms, b"extended master secret", spec_hs_digest(ver, suite, pre(ems_p)), 48)
+            if want != master:
+                bad.append(("c04:master-secret-not-bound-to-session-hash",
+                            "%s (%s): master secret is not PRF(pms, 'extended master secret', Hash(messages through "
+                            "ClientKeyExchange)) of RFC 7627" % (name, side)))
+    return bad
+
+
+# ------------------------------------------------------------------------------------------------
 # execution
 
 PRIMARY = ("full-ssl3-", "full-tls10-", "full-tls11-", "full-tls12-rsa", "full-tls12-dhe_rsa", "full-tls12-ecdhe_rsa",
@@ -1740,7 +2036,8 @@ def do_baseline(ctx, J, lc):
     """honest run of every scenario: layout, agreeing view fields, script and transcript of the model"""
     excluded = {}
     for name, sc in SC().items():
-        res = _safe_run({"scn": name, "tamper": None, "trace": True, "want_views": True, "want_wire": True, "kind": "honest"})
+        res = _safe_run({"scn": name, "tamper": None, "trace": True, "want_views": True, "want_wire": True, "kind": "honest",
+                         "tap": True})
         if "crash" in res:
             from ..core import Infra
             raise Infra("baseline of %s crashed: %s" % (name, res["crash"]))
@@ -1771,6 +2068,8 @@ def do_baseline(ctx, J, lc):
                 ctx.violation(key, what, {"case": case, "stage": "binder"})
         if lc is None or sc["flow"] is None:
             continue
+        for key, what in keys_check(J, sc, res, lc):
+            ctx.violation(key, what, {"case": case, "stage": "key-schedule"})
         script = model_script(lc, sc)
         J.script[name] = script
         ev = wire_events(res)
@@ -1914,7 +2213,8 @@ def replay(ctx, rep):
     J = Judge(ctx)
     sc = SC()[case["scn"]]
     if case.get("kind") == "honest":
-        res = _safe_run({"scn": case["scn"], "tamper": None, "trace": True, "want_views": True, "want_wire": True, "kind": "honest"})
+        res = _safe_run({"scn": case["scn"], "tamper": None, "trace": True, "want_views": True, "want_wire": True, "kind": "honest",
+                         "tap": True})
         found = J.oracle(case, res)
         if res.get("both"):
             dv = [k for k in diff_views(res, VIEW_FIELDS) if k in CORE_FIELDS]
@@ -1922,6 +2222,9 @@ def replay(ctx, rep):
                 found.append(("c04:both-complete-views-differ", "views differ: %s" % dv))
             if sc.get("psk"):
                 found += binder_check(J, sc, res, None)
+            lc = ctx.lean()
+            if lc is not None and sc["flow"] is not None:
+                found += keys_check(J, sc, res, lc)
     else:
         base = _safe_run({"scn": case["scn"], "tamper": None, "want_views": True, "want_wire": True})
         if base.get("both"):
